@@ -477,6 +477,26 @@ def pipeline_program(params):
                 drain()
                 s.log("quiescent", tree=drv.listing(), phase="drain")
 
+        ever = {p for p, k in drv.tree.items() if k == "dir"}      # every in-tree directory path the history has seen
+        outed = []                                                   # in-tree paths of directories that were moved out (D7)
+
+        def ghost_tour():
+            """Every directory path of the past that is free again is re-created and renamed away, one system call at a
+            time: a watch-table entry left behind under such a path would now be re-keyed onto a live watch, and the probe
+            round that follows would be reported under a path that does not exist."""
+            ghosts = [g for g in sorted(ever) if g not in drv.tree and (len(g) == 1 or drv.tree.get(g[:-1]) == "dir")
+                      and not any(g[: len(o)] == o or o[: len(g)] == g for o in outed)]
+            for i, g in enumerate(ghosts[:4]):
+                for op in (["mkdir", "/".join(g)], ["rename", "/".join(g), "/".join(g[:-1] + (f"gh{i}",))]):
+                    if op[0] == "rename" and drv.tree.get(g) != "dir":
+                        continue
+                    nops[0] += 1
+                    s.log("opb", n=nops[0], op=drv.describe(op))
+                    drv.do(op)
+                    s.log("op", n=nops[0], tree=drv.listing())
+                    drain()
+                    s.log("quiescent", tree=drv.listing(), phase="drain")
+
         def drive():
             for op in ops:
                 if op[0] == "poll":      # let a poll start and carry on without waiting for it
@@ -493,11 +513,16 @@ def pipeline_program(params):
                     s.log("opb", n=nops[0], op=drv.describe(op))
                     drv.do(op)
                     s.log("op", n=nops[0], tree=drv.listing())
+                    ever.update(p for p, k in drv.tree.items() if k == "dir")
+                    if op[0] == "moveout":
+                        outed.append(tuple(op[1].split("/")))
             if params.get("no_final_drain"):
                 return  # stop() will race with the library threads while events are still flowing
             drain()
             s.log("quiescent", tree=drv.listing(), phase="end")
             if final_probe and os.path.isdir(drv.R):
+                if params.get("ghost_tour", params.get("paced", True) and not armed and not polling):
+                    ghost_tour()
                 probe_round("final")
 
         d = th.Thread(target=drive, name="hdriver")
